@@ -1,7 +1,7 @@
 (* C03 - a stream has one input; foreign arrivals and departures never disturb it.
    Only property statements here; each is closed by [exact] (or a two-line proof). *)
 From Coq Require Import NArith ZArith List Bool.
-From Lal Require Import Group.GroupAdmission Group.GroupAdmissionProofs Group.GroupInvariantProofs Group.GroupAttemptProofs.
+From Lal Require Import Group.GroupAdmission Group.GroupAdmissionProofs Group.GroupInvariantProofs Group.GroupAttemptProofs Group.GroupDeliveryProofs.
 Import ListNotations.
 Open Scope N_scope.
 
@@ -40,6 +40,20 @@ Theorem c03_noninterference : forall cf st e x s g,
   keeps s g (fst (fst (step fixed_tree cf st e))).
 Proof. exact (foreign_event_step fixed_tree eq_refl eq_refl). Qed.
 Print Assumptions c03_noninterference.
+
+(* ... and delivery: in any reachable state, an event about an INPUT session other than the accepted
+   input (a refused publisher or start_rtp_pub, the departure or kick of a session that is not the
+   input, the success / failure / end of a relay pull that is not attached, media of another
+   session) leaves in addition the subscriber set and the set of http-flv subscribers the accepted
+   input's media is written to exactly as they were. *)
+Theorem c03_noninterference_delivery : forall cf h e x s g,
+  let st := fst (run fixed_tree cf init_state h) in
+  input_event st e = true -> subject_of e = Some x ->
+  get_group st s = Some g -> has_in g = true -> occupies x s g = false ->
+  exists g', get_group (fst (fst (step fixed_tree cf st e))) s = Some g' /\ sim g g' /\ g_subs g' = g_subs g /\
+             receivers (fst (fst (step fixed_tree cf st e))) g' = receivers st g.
+Proof. exact input_event_delivery. Qed.
+Print Assumptions c03_noninterference_delivery.
 
 (* F-10: on the pinned tree the end of a pull that never attached clears the accepted publisher *)
 Theorem c03_noninterference_refuted :
